@@ -10,6 +10,7 @@ import hypothesis
 from hypothesis import HealthCheck, given, settings, strategies as st
 
 from .. import valuecheck
+from ..hyp import mini
 from ..refmodel import UINT_MAX
 from ..runner import Ctx, derive_seed
 
@@ -21,7 +22,8 @@ RULE = (
     "objects; oracle: tuple comparison of (line, character), trichotomy, component-wise equality, ==False/!=True/"
     "TypeError against foreign objects (incl. look-alikes with the same attribute names), exact repr format; plus a "
     "RuleBasedStateMachine over mutable positions/ranges (create, mutate a field in place, compare): comparisons must "
-    "follow the current field values. non-trivial = pair with a differing or boundary coordinate; "
+    "follow the current field values; operands (and nested components) that are instances of classes derived from "
+    "Position/Range/Location compare like the stock ones. non-trivial = pair with a differing or boundary coordinate; "
     "distinct = the coordinate tuple"
 )
 
@@ -182,6 +184,52 @@ def run(ctx: Ctx) -> None:
                             fail(f"raises:{type(e).__name__}", f"Position{name}foreign", f"{f!r}: {e}", case)
             distinct.add((n1, repr(type(f))))
     samples.append({"foreign": [repr(f) for f in foreign[:6]]})
+
+    # 3b. instances of subclasses (user code derives helpers from the protocol classes): a SpanRange *is* a Range, so
+    #     equality and order follow the components whichever operand - or nested component - is of the derived class
+    def derive(cls):
+        plain = type("Derived" + cls.__name__, (cls,), {"helper": lambda self: None})
+        inherited = attrs.define(eq=False, order=False, repr=False)(type("Attrs" + cls.__name__, (cls,), {}))
+        return [cls, plain, inherited]
+
+    PCS, RCS, LCS = derive(Position), derive(Range), derive(Location)
+    sub_stats = {"pairs": 0}
+
+    def t_subclasses(x):
+        nonlocal evaluations
+        (a, b, c, d), ci = x
+        Pa, Pb = PCS[ci[0]], PCS[ci[1]]
+        pa, pb = Pa(line=a[0], character=a[1]), Pb(line=b[0], character=b[1])
+        case = {"a": a, "b": b, "classes": [Pa.__name__, Pb.__name__]}
+        if ci[0] or ci[1]:
+            sub_stats["pairs"] += 1
+            distinct.add(("subclass", a, b, ci[0], ci[1]))
+        for name, op in OPS:
+            evaluations += 1
+            try:
+                if op(pa, pb) is not op(a, b):
+                    fail("wrong-order-subclass", f"Position{name}", f"{Pa.__name__}{a} {name} {Pb.__name__}{b} gave {op(pa, pb)!r}", case)
+            except Exception as e:
+                fail(f"raises:{type(e).__name__}", f"Position{name}subclass", f"{Pa.__name__}{a} {name} {Pb.__name__}{b}: {e}", case)
+        # ranges and locations: outer class and nested component classes vary independently
+        r1 = RCS[ci[2]](start=pa, end=PCS[ci[3]](line=c[0], character=c[1]))
+        r2 = RCS[ci[4]](start=Position(line=a[0], character=a[1]), end=Position(line=d[0], character=d[1]))
+        same_r = c == d
+        l1, l2 = LCS[ci[5]](uri="u", range=r1), LCS[ci[6]](uri="u", range=r2)
+        for kind, x1, x2 in (("Range", r1, r2), ("Location", l1, l2)):
+            evaluations += 1
+            case2 = {"a": a, "c": c, "d": d, "classes": [type(x1).__name__, type(x2).__name__, type(r1.start).__name__, type(r1.end).__name__, type(r1).__name__, type(r2).__name__]}
+            try:
+                if (x1 == x2) is not same_r or (x2 == x1) is not same_r or (x1 != x2) is same_r or (x2 != x1) is same_r:
+                    fail("wrong-equality-subclass", kind, f"{type(x1).__name__} vs {type(x2).__name__} with {'equal' if same_r else 'different'} components: == gave {(x1 == x2)!r}/{(x2 == x1)!r}", case2)
+            except Exception as e:
+                fail(f"raises:{type(e).__name__}", f"{kind}==subclass", str(e)[:100], case2)
+
+    near = st.tuples(coord, coord)
+    quad = st.one_of(st.tuples(near, near, near, near), near.map(lambda p: (p, p, p, p)),
+                     st.tuples(near, near, near).map(lambda t3: (t3[0], t3[1], t3[2], t3[2])))
+    mini(st.tuples(quad, st.tuples(*[st.integers(0, 2)] * 7)), 400 if ctx.quick else 20000, (ctx.seed, "C20", "subclasses"), t_subclasses)
+    samples.append({"subclass_operands": [c.__name__ for c in PCS + RCS + LCS], "pairs_with_a_derived_operand": sub_stats["pairs"]})
 
     # 4. histories: positions/ranges/locations are mutable objects - comparisons must follow the *current* fields
     from hypothesis.stateful import RuleBasedStateMachine, precondition, rule, run_state_machine_as_test
